@@ -35,6 +35,11 @@ def build_world(E, version, shape, P, K, layout, decoy="none", dest_pre="empty",
     E.assume(disj(*[s > 0 for s in sizes.values()]))
     place = LAYOUTS[layout]
     for i, r in enumerate(rels):
+        if damage == "first-missing":
+            if i == 0:
+                continue        # only its decoy is available
+            fs.add(place(r, i), cr.fid_of(shape, r, names), sizes[r])
+            continue
         if damage and i == len(rels) - 1:
             # the last payload file is not intact in the search directories
             if damage == "missing":
@@ -118,6 +123,10 @@ def conc_world(params, model, workdir, seed, hostile=None):
     place = LAYOUTS[layout]
     for i, r in enumerate(rels):
         dmg = params.get("damage")
+        if dmg == "first-missing":
+            if i != 0:
+                refconc.write_file(workdir + place(r, i), data[r])
+            continue
         if dmg and i == len(rels) - 1:
             if dmg == "missing":
                 continue
